@@ -21,6 +21,8 @@ namespace Tickit
 
 /-! ### Bit-field storage -/
 
+namespace Bitfield
+
 /-- Value read back from an unsigned bit-field of width `w` after storing `v` (conversion modulo `2^w`). -/
 def wrapUnsigned (w : Nat) (v : Int) : Int := v % (2 : Int) ^ w
 
@@ -39,6 +41,9 @@ def Representable (w : Nat) (signed : Bool) (v : Int) : Prop :=
 
 instance (w : Nat) (s : Bool) (v : Int) : Decidable (Representable w s v) := by
   unfold Representable; exact inferInstance
+
+end Bitfield
+open Bitfield
 
 /-! ### Attributes -/
 
@@ -85,7 +90,7 @@ def signed : PenAttr → Bool
   | altfont => altfont_signed | blink => blink_signed | sizepos => sizepos_signed
 
 /-- A *representable value* of the attribute: one its bit-field can hold. -/
-def Representable (a : PenAttr) (v : Int) : Prop := Tickit.Representable a.width a.signed v
+def Representable (a : PenAttr) (v : Int) : Prop := Bitfield.Representable a.width a.signed v
 
 instance (a : PenAttr) (v : Int) : Decidable (a.Representable v) := by
   unfold PenAttr.Representable; exact inferInstance
@@ -428,7 +433,7 @@ end Pen
 
 /-! ### glibc's `sscanf` for the two formats used (recorded behaviour, glibc 2.36 `vfscanf-internal.c`) -/
 
-namespace Scan
+namespace PenScan
 
 /-- `isspace` in the "C" locale. -/
 def isSpace (c : UInt8) : Bool := c == 32 || (9 ≤ c && c ≤ 13)
@@ -491,10 +496,10 @@ def scanRgb (s : List UInt8) : Option RGB8 :=
       | none => none
       | some (b, _) => some ⟨r, g, b⟩
 
-end Scan
+end PenScan
 
 /-- The recorded glibc behaviour. -/
-def glibcScanf : Pen.Scanf := { scanD := Scan.scanD, scanRgb := Scan.scanRgb }
+def glibcScanf : Pen.Scanf := { scanD := PenScan.scanD, scanRgb := PenScan.scanRgb }
 
 /-! ### Entry points taking the raw `int` attribute (out-of-range values take the `default:` path) -/
 
